@@ -43,11 +43,11 @@ type Instance interface {
 }
 
 type System struct {
-	Name     string
-	Starts   int
-	New      func(start int) Instance
-	Canon    *Canonizer
-	MaxDepth int // 0 = run to the fix-point
+	Name      string
+	Starts    int
+	New       func(start int) Instance
+	Canon     *Canonizer
+	MaxDepth  int // 0 = run to the fix-point
 	MaxStates int // safety cap (0 = 5e6)
 }
 
@@ -90,12 +90,14 @@ func Search(r *common.Run, sys System) Result {
 		var inst Instance
 		var key [16]byte
 		var mm *Mismatch
+		land := takeOff(r, sys, s, nil, nil, "start-state")
 		_, st, p := common.Catch(func() {
 			inst = sys.New(s)
 			key = sys.Canon.Key(inst.Roots()...)
 			abstract[inst.Abstract()] = struct{}{}
 			mm = inst.Check()
 		})
+		land()
 		res.Paths++
 		if p {
 			report(r, sys, s, nil, nil, &Mismatch{Sig: common.PanicSite(st) + "|panic|start-state", What: "panic while building / checking the start state"}, st)
@@ -150,6 +152,8 @@ func Search(r *common.Run, sys System) Result {
 				var key [16]byte
 				var abs string
 				stage := "replay"
+				op := op
+				land := takeOff(r, sys, nd.start, nd.path, &op, "transition")
 				_, st, p := common.Catch(func() {
 					inst = sys.New(nd.start)
 					for _, o := range nd.path {
@@ -165,6 +169,7 @@ func Search(r *common.Run, sys System) Result {
 						mm = inst.Check()
 					}
 				})
+				land()
 				atomic.AddInt64(&trans, 1)
 				atomic.AddInt64(&paths, 1)
 				if p {
